@@ -264,6 +264,8 @@ def build(cfg, values=None):
     ctx = w.ctx
     obs = []
     base = {'Nxx': 'Nxx', 'Nyy': 'Nyy', 'Nxy': 'Nxy', 'offset': 'd'}
+    if cfg.get('preload'):
+        base = dict(base, Nxx_cte='Nxx_cte', Nxy_cte='Nxy_cte')      # a constant pre-load besides the reference load
     with ctx.shadow():
         if model == 'kpanel':
             ctx.override_sections(1)
@@ -285,7 +287,16 @@ def build(cfg, values=None):
         snap = snapshot(p)
         if last in ('calc_kA', 'calc_cA'):
             snap.pop('r', None)
+        # the matrix an earlier request stored on the object is not replaced by a later request for ANOTHER matrix
+        OWNED = {'calc_k0': 'k0', 'calc_kG0': 'kG0', 'calc_kM': 'kM'}
+        stored = None
+        if first in OWNED and last in OWNED and last != first and redef == 'none' and getattr(p, OWNED[first], None) is not None:
+            stored = dict(getattr(p, OWNED[first]).todict())
         r_hist = flat(t1[last](), last)
+        if stored is not None:
+            now = getattr(p, OWNED[first]).todict()
+            for k in sorted(set(stored) | set(now)):
+                obs.append(('stored-%s-unchanged-by-%s[%d,%d]' % (OWNED[first], last, k[0], k[1]), now.get(k, 0), stored.get(k, 0)))
         for nm in definition_changes(p, snap):
             if nm in ('model',) and snap['model'][0] is None:
                 continue
@@ -384,6 +395,10 @@ def configs(tier, seed):
                     fs = ['calc_k0']
                 for first in sorted(set(fs) & set(mops)):
                     out.append({'model': model, 'm': mm, 'n': 1, 'first': first, 'redef': redef, 'last': last, 'group': 'redefinition-%s:%s' % (redef, model)})
+    # with a constant pre-load: the stored matrices of earlier requests survive later requests for other matrices
+    for model in ('plate', 'cpanel'):
+        for first, last in (('calc_kG0', 'calc_k0'), ('calc_k0', 'calc_kG0'), ('calc_kM', 'calc_k0'), ('calc_kG0', 'calc_kM')):
+            out.append({'model': model, 'm': 2, 'n': 1, 'first': first, 'redef': 'none', 'last': last, 'preload': True, 'group': 'pair-with-constant-preload:%s' % model})
     # a plot (deformed contour on the caller's own grid) before a field query on the same grid
     for model in ('plate', 'cpanel'):
         for last in ('uvw', 'strain', 'calc_k0'):
@@ -402,7 +417,9 @@ def configs(tier, seed):
             out.append({'shell': True, 'model': model, 'mn': (2, 2, 1), 's': 1, 'cone': cone, 'm': 2, 'n': 1, 'variant': 'shell-repeated-evaluation',
                         'group': 'shell-repeated-evaluation:%s' % model, 'first': '-', 'redef': 'none', 'last': '_calc_linear_matrices', 'timeout_ms': 180000})
     for tag, red in (('other-radius-and-length', ({'r2': 'r2_before', 'L': 'L_before'}, {'r2': 'r2', 'L': 'L'})), ('cylinder-to-cone', ({'alphadeg': 0.}, {'alphadeg': 'alphadeg'})),
-                     ('other-thickness', ({'plyt': 'plyt_before'}, {'plyt': 'plyt', 'plyts': 'EMPTY'}))):
+                     ('other-thickness', ({'plyt': 'plyt_before'}, {'plyt': 'plyt', 'plyts': 'EMPTY'})),
+                     ('other-ply-thickness-list', ({'plyts': ['plyt_before']}, {'plyts': ['plyt']})),
+                     ('other-ply-material-list', ({'laminaprops': [('E_before', 'E_before', 0.3)]}, {'laminaprops': [('E_now', 'E_now', 0.3)]}))):
         out.append({'shell_history': True, 'model': 'clpt_donnell_bc1', 'mn': (2, 2, 1), 's': 1, 'cone': True, 'redefine': red, 'm': 2, 'n': 1, 'variant': 'shell-calc_k0-after-redefinition',
                     'first': 'calc_k0', 'redef': tag, 'last': 'calc_k0', 'group': 'shell-redefinition-%s:calc_k0' % tag, 'timeout_ms': 180000})
     for pd in ((True, True, True), (True, False, True), (False, True, True)):
